@@ -435,8 +435,6 @@ inductive Tok
   | closeA
 deriving Repr, DecidableEq
 
-def isNameChar (c : Char) : Bool := c.isAlphanum || c == '-' || c == '_' || c == ':'
-
 /-- value of attribute `key` inside the text of a start tag (after `<a`): `key="…"` or `key='…'`
 preceded by whitespace; first occurrence. -/
 def attr (key : Str) : List Char → Option Str
@@ -553,6 +551,20 @@ def allDocs (w : World) : List Str :=
   w.docs.toList ++ w.imports.flatMap itemDocs ++ w.exports.flatMap itemDocs
 
 def docsVerbatim (md : Str) (w : World) : Bool := (allDocs w).all (docIn md)
+
+/-- What the generator prints of an exported item: as `itemDocs`, but not the doc comment of the
+interface itself (`export_interface` has no `docs(..)` call), and no exported type items
+(`unreachable!()` in `WorldGenerator::generate`). -/
+def exportItemDocs : Item → List Str
+  | .iface _ i => i.types.flatMap typeDocs ++ i.funcs.filterMap (·.docs)
+  | .func _ f => f.docs.toList
+  | .type _ _ => []
+
+/-- the doc comments that have a `docs(..)` call in the generator -/
+def printedDocs (w : World) : List Str :=
+  w.docs.toList ++ w.imports.flatMap itemDocs ++ w.exports.flatMap exportItemDocs
+
+def printedDocsVerbatim (md : Str) (w : World) : Bool := (printedDocs w).all (docIn md)
 
 /-- the doc comments missing from the text (for the report) -/
 def missingDocs (md : Str) (w : World) : List Str := (allDocs w).filter fun d => !docIn md d
